@@ -83,4 +83,4 @@ def run(c):
         assumptions=["keeper vectors inject the pool state (reserve balances, share supply) through the bank keeper before the request",
                      "decimal precision 6 in the model equals precision 18 in the code for denominators <= 16 (argument in PoolShares.tla, and checked per case)",
                      "the withdrawal clause 'pro-rata part reduced by the fee' is applied to pc < ps; redeeming the last shares is governed by its own clause",
-                     "ranged-pool prices are judged on states reached from CreateRangedPool (creation, deposit, withdrawal, swaps), not on arbitrary reserves"])
+                     "ranged-pool prices are judged as RangedPool.Price() reports them for the reserves after the step (fresh translation, as the keeper derives it in the next batch)"])
